@@ -532,3 +532,62 @@ def run_scenarios(payload):
             o["raised"] = f"{type(ex).__name__}: {ex}"[:300]
         res.append(o)
     return res
+
+
+def run_forms(payload):
+    """items: {text}; projected result for the C01 monitor"""
+    from eyecite.models import ReferenceCitation
+    res = []
+    for it in payload["items"]:
+        text = it["text"]
+        o = {"raised": "", "obs": [], "nrefs": 0, "ties": False}
+        try:
+            cs = extract(text, "aho")
+            for c in cs:
+                if isinstance(c, ReferenceCitation):
+                    o["nrefs"] += 1
+                    continue
+                p = proj(c)
+                m = p["meta"]
+                o["obs"].append({"cls": p["cls"], "s": p["s"], "e": p["e"], "fs": p["fs"], "fe": p["fe"], "groups": p["groups"],
+                                 "pin_cite": m.get("pin_cite", ""), "myear": m.get("year", ""), "year": p["year"],
+                                 "court": m.get("court", ""), "defendant": m.get("defendant", ""),
+                                 "plaintiff_cp": _cp(m.get("plaintiff", "")), "antecedent": m.get("antecedent_guess", ""),
+                                 "paren": m.get("parenthetical", ""),
+                                 "editions": sorted({e.short_name for e in getattr(c, "all_editions", ())})})
+            if it.get("want_ties"):
+                # does a second pattern with a different group structure match the same characters?
+                toks = list(tokenizer("ref").extract_tokens(text))
+                by = {}
+                for t in toks:
+                    by.setdefault((t.start, t.end), set()).add(tuple(sorted(t.groups)))
+                o["ties"] = any(len(v) > 1 for v in by.values())
+        except Exception as ex:  # noqa: BLE001
+            o["raised"] = f"{type(ex).__name__}: {ex}"[:300]
+        res.append(o)
+    return res
+
+
+def courts_and_strings(payload):
+    """courts-db (read directly) and, per reporter string, the template class of its editions"""
+    import re as _re
+    from courts_db import courts
+    from reporters_db import JOURNALS, LAWS, REPORTERS
+    cs = {}
+    for c in courts:
+        s = c["citation_string"]
+        if s and ")" not in s and "(" not in s and not _re.search(r"\d{4}", s):
+            cs.setdefault(_re.sub(r"[^\w]", "", s).lower(), {"string": s, "ids": []})["ids"].append(str(c["id"]))
+    # a court string is usable when no OTHER court's normalised string equals it (exact match preferred by the lookup)
+    reporters = []
+    for key, cluster in REPORTERS.items():
+        for src in cluster:
+            for ename, ed in src["editions"].items():
+                plain = not ed.get("regexes")
+                reporters.append({"string": ename, "edition": ename, "plain": plain, "cite_type": src["cite_type"]})
+                for v, target in src["variations"].items():
+                    if target == ename:
+                        reporters.append({"string": v, "edition": ename, "plain": plain, "cite_type": src["cite_type"]})
+    laws = [{"key": k, "examples": list(s.get("examples") or [])} for k, cl in LAWS.items() for s in cl]
+    journals = [{"key": k, "plain": not s.get("regexes"), "variations": list(s.get("variations") or [])} for k, cl in JOURNALS.items() for s in cl]
+    return {"courts": list(cs.values()), "reporters": reporters, "laws": laws, "journals": journals}
